@@ -279,8 +279,8 @@ func (r *Run) where(fr *Frame) string {
 
 func (r *Run) access(p *Value, write, atomic bool, where string) {
 	s := r.Sch
-	if s == nil || !s.active || p == nil {
-		return
+	if s == nil || !s.active || p == nil || r.InInit > 0 {
+		return // (package initialisation is run lazily by whichever thread first touches the package; Go runs it before main)
 	}
 	t := s.cur
 	ci := s.cells[p]
